@@ -3,8 +3,10 @@ package c04
 
 import (
 	"crypto/ecdsa"
+	"crypto/x509"
 	"encoding/base64"
 	"encoding/json"
+	"encoding/pem"
 	"fmt"
 	"net/url"
 	"strings"
@@ -55,6 +57,8 @@ var authzKinds = []string{
 	"none", "basic-valid", "basic-wrongpw", "basic-wronguser", "basic-badb64", "basic-nocolon",
 	"bearer-opaque-valid", "bearer-opaque-inactive", "bearer-opaque-remotefail", "bearer-garbage",
 	"bearer-jwt-valid", "bearer-jwt-badsig", "bearer-jwt-expired", "bearer-jwt-wrongiss", "bearer-jwt-otherkey",
+	// well-formed tokens secured with another RFC 7518 algorithm than the published key is for: found and rejected, too
+	"bearer-jwt-hs256-keyed-with-public-key", "bearer-jwt-hs512-random-secret", "bearer-jwt-rs256-header-on-ec-signature", "bearer-jwt-unknown-kid",
 }
 
 func mintJWT(kind string) string {
@@ -71,9 +75,29 @@ func mintJWT(kind string) string {
 		key = otherKey
 	}
 
-	tok, err := vkit.MintJWT(map[string]any{"alg": "ES256", "kid": "k1", "typ": "JWT"}, claims, key)
+	header := map[string]any{"alg": "ES256", "kid": "k1", "typ": "JWT"}
+
+	var signWith any = key
+
+	switch kind {
+	case "bearer-jwt-hs256-keyed-with-public-key":
+		der, _ := x509.MarshalPKIXPublicKey(sigKey.Public())
+		header["alg"], signWith = "HS256", pem.EncodeToMemory(&pem.Block{Type: "PUBLIC KEY", Bytes: der})
+	case "bearer-jwt-hs512-random-secret":
+		header["alg"], signWith = "HS512", []byte("0123456789abcdef0123456789abcdef0123456789abcdef0123456789abcdef")
+	case "bearer-jwt-unknown-kid":
+		header["kid"] = "nobody"
+	}
+
+	tok, err := vkit.MintJWT(header, claims, signWith)
 	if err != nil {
 		panic(err)
+	}
+
+	if kind == "bearer-jwt-rs256-header-on-ec-signature" {
+		parts := strings.Split(tok, ".")
+		parts[0] = base64.RawURLEncoding.EncodeToString([]byte(`{"alg":"RS256","kid":"k1","typ":"JWT"}`))
+		tok = strings.Join(parts, ".")
 	}
 
 	if kind == "bearer-jwt-badsig" {
@@ -154,7 +178,8 @@ func classify(a authn, c creds) class {
 			return class{"none", ""}
 		case c.Authz == "bearer-opaque-valid":
 			return class{"valid", "opaque-user"}
-		case c.Authz == "bearer-jwt-valid":
+		case c.Authz == "bearer-jwt-valid", c.Authz == "bearer-jwt-unknown-kid":
+			// (the scripted introspection endpoint verifies the signature with its key and does not look at the kid)
 			return class{"valid", "jwt-user"}
 		case c.Authz == "bearer-opaque-remotefail":
 			return class{"remotefail", ""}
